@@ -421,8 +421,28 @@ func (ev *Evaler) Check(src parse.Source, w io.Writer) (error, []string, error) 
 // errors. If w is not nil, deprecation messages are written to it.
 func (ev *Evaler) CheckTree(tree parse.Tree, w io.Writer) ([]string, error) {
 	ev.mu.RLock()
-	b, g, m := ev.builtin, ev.global, ev.modules
+	b, g, modules := ev.builtin, ev.global, mapKeys(ev.modules)
 	ev.mu.RUnlock()
-	_, autofixes, compileErr := compile(b.static(), g.static(), mapKeys(m), tree, w)
+	_, autofixes, compileErr := compile(b.static(), g.static(), modules, tree, w)
 	return autofixes, compileErr
+}
+
+// Looks up a loaded module. The module table is shared by all evaluations and
+// code that runs in parallel, so every access is guarded by the mutex.
+func (ev *Evaler) module(key string) (*Ns, bool) {
+	ev.mu.RLock()
+	defer ev.mu.RUnlock()
+	ns, ok := ev.modules[key]
+	return ns, ok
+}
+
+// Registers a loaded module, or unloads it if ns is nil.
+func (ev *Evaler) setModule(key string, ns *Ns) {
+	ev.mu.Lock()
+	defer ev.mu.Unlock()
+	if ns == nil {
+		delete(ev.modules, key)
+	} else {
+		ev.modules[key] = ns
+	}
 }
